@@ -214,6 +214,13 @@ func famErrors(w *World) {
 			w.Call(warm)
 			rs := w.newRawPeer("rawsrv", "10.0.8.1")
 			perrID := []uint32{0xffffffff, 1, 7}[scn(3)]
+			// when the frame arrives: at once; after the call's deadline has passed while the
+			// caller is busy elsewhere (its exchange is still registered but refuses frames);
+			// or behind a burst of response fragments a slow caller has not read yet
+			when := scn(3)
+			if when != 0 {
+				perrID = 1
+			}
 			hp := rs.Listen(6000, func(c *RawConn) {
 				if c.ServerHandshake("10.0.8.1:6000") != nil {
 					return
@@ -228,13 +235,33 @@ func famErrors(w *World) {
 						if id == 1 {
 							id = f.ID
 						}
+						switch when {
+						case 1:
+							sleep(400 * time.Millisecond)
+						case 2:
+							frs := wire.EncCall(wire.CallSpec{Type: wire.TCallRes, ID: f.ID, CsumType: wire.CsumCRC32, Args: [3][]byte{nil, []byte("r;x\n"), payload("perr", 13, 4000)}, MaxFrame: 400})
+							for _, fr := range frs[:len(frs)-1] {
+								c.Send(fr)
+							}
+						}
 						c.Send(wire.EncError(id, wire.ErrProtocol, wire.Span{}, "raw protocol error"))
 					}
 				}
 			})
-			r := w.newCall(CallSpec{From: cli, To: hp, Service: "x", Via: "to-raw-server", Timeout: 3 * time.Second, Len3: 10, Rs2: -1, Rs3: -1, NoCheck: true})
+			spec := CallSpec{From: cli, To: hp, Service: "x", Via: "to-raw-server", Timeout: 3 * time.Second, Len3: 10, Rs2: -1, Rs3: -1, NoCheck: true}
+			switch when {
+			case 1:
+				spec.Timeout, spec.ReadPause = 150*time.Millisecond, 700*time.Millisecond
+			case 2:
+				spec.Timeout, spec.ChunkPause, spec.ReadPat = 500*time.Millisecond, 200*time.Millisecond, 2
+			}
+			w.probe(fmt.Sprintf("C20.protocol-error-frame(when=%d)", when))
+			r := w.newCall(spec)
 			w.Call(r)
 			sleep(200 * time.Millisecond)
+			if when != 0 {
+				sleep(time.Second)
+			}
 			w.eval("C20.protocol-error-frame")
 			if r.Err == nil {
 				w.violate("C20", "protocol-error-ignored", "peer answered with a protocol-error frame (id %#x) and the call succeeded", perrID)
